@@ -175,19 +175,30 @@ fn directed_plain_cases(out: &mut Out, s: &Setup, r: &mut Rng) {
         ("mono-neg-1", mono(n - 1, t - 1)), ("mono-neg-small", mono(3 % n, t - 3)), ("mono-half", mono(1, (t + 1) / 2)),
         ("mono-pos", mono(r.below(n as u64) as usize, 1 + r.below((t / 2).max(1)))), ("const-neg", mono(0, t - 1 - r.below((t / 3).max(1)))),
         ("two-term", { let mut v = mono(0, 1); v[n / 2] = t - 1 - r.below((t / 3).max(1)); v }), ("full", rand_msg(r, n, t)),
+        // coefficients on the carry boundaries of the Delta*m scaling ((q mod t)*m + (t+1)/2 around multiples of 2^64; matter for t > 2^32)
+        ("carry", { let cd = s.ctx.get_context_data(ct.parms_id()).unwrap(); let cand = crate::c01::carry_boundary_coeffs(r, t, cd.coeff_modulus_mod_plain_modulus()); (0..n).map(|i| cand[(i * 5 + 1) % cand.len()]).collect() }),
     ];
     for (nm, pm) in &plains {
         if pm.iter().all(|&x| x == 0) { continue; }
         let p = plain_of(pm);
         let native_ntt = s.scheme == SchemeType::BGV;
         let view = |c: &Ciphertext| if s.scheme == SchemeType::BFV && c.is_ntt_form() { ev.transform_from_ntt_new(c) } else { c.clone() };
+        let (ra, rs) = (ev.add_plain_new(&ct, &p), ev.sub_plain_new(&ct, &p));
+        // BFV: add_plain / sub_plain change only c0, by the scaled plaintext — compared bit for bit with the model of multiply_add_plain / _sub_plain
+        if s.scheme == SchemeType::BFV && !ct.is_ntt_form() {
+            let lqs = s.level_qs(ct.parms_id()); let k = lqs.len();
+            let c0 = |c: &Ciphertext| -> Vec<Vec<u64>> { (0..k).map(|j| c.poly(0)[j * n..(j + 1) * n].to_vec()).collect() };
+            for (sub, res) in [(0u8, &ra), (1u8, &rs)] {
+                out.case(&format!("multiply_add_plain {} {} {} {} {} {}", sub, n, fl(&lqs), t, fl(&trim(pm)), fl2(&c0(&ct))), &format!("plainop-{}-{}", if sub == 1 { "sub" } else { "add" }, nm), || fl2(&c0(res)));
+            }
+        }
         let mut emit = |op: &str, res: Ciphertext, want: Vec<u64>| { let v = view(&res); out.case(&format!("prog {} {} {}", s.ct_case(&v), pred, fl(&trim(&want))), &format!("plain-{}-{}", op, nm), || s.dec_str(&v)); };
         emit("multiply_plain", ev.multiply_plain_new(&ct, &p), shadow_mul(&msg, pm, t));
         { let mut pn = p.clone(); ev.transform_plain_to_ntt_inplace(&mut pn, ct.parms_id());
           let ctn = if native_ntt { ct.clone() } else { ev.transform_to_ntt_new(&ct) };
           emit("multiply_plain_ntt", ev.multiply_plain_new(&ctn, &pn), shadow_mul(&msg, pm, t)); }
-        emit("add_plain", ev.add_plain_new(&ct, &p), shadow_add(&msg, pm, t));
-        emit("sub_plain", ev.sub_plain_new(&ct, &p), shadow_sub(&msg, pm, t));
+        emit("add_plain", ra, shadow_add(&msg, pm, t));
+        emit("sub_plain", rs, shadow_sub(&msg, pm, t));
     }
 }
 
@@ -255,7 +266,8 @@ pub fn run(out: &mut Out, thorough: bool, seed: u64, _extra: &[String]) {
     let steps = if thorough { 14 } else { 10 };
     for pi in 0..programs {
         let scheme = if pi % 2 == 0 { SchemeType::BFV } else { SchemeType::BGV };
-        let s = match setup(&mut r, thorough, scheme) { Some(s) => s, None => continue };
+        // the first two programs (one BFV, one BGV) run on the wide-plain-modulus family (t > 2^32)
+        let s = match if pi < 2 { setup_wide_t(&mut r, thorough, scheme) } else { setup(&mut r, thorough, scheme) } { Some(s) => s, None => continue };
         directed_plain_cases(out, &s, &mut r);
         if thorough || pi < 10 { directed_size_pairs(out, &s, &mut r); }
         let mut prog = Prog::new(&s, &mut r, 3);
